@@ -278,6 +278,9 @@ func init() {
 				if tier != "thorough" {
 					spec.Shallow = []int{2, 3}
 				}
+				if len(jobs) == 0 {
+					spec.CrossChk = &explore.Budget{K: 2}
+				}
 				jobs = append(jobs, ExploreJob("C16", spec, 10*p.NEvents))
 			}
 			for _, who := range []string{"fg", "bg"} {
